@@ -130,8 +130,11 @@ def build(frag, solo=False, quiet=False):
     hfiles = harness_files(frag, solo)
     kfiles = kit_files()
     rw_srcs = sorted(glob.glob(os.path.join(VERIF, "tools", "vrewrite", "*.go")))
-    key = sha_files(repo_go_files() + hfiles + [p for _, p in kfiles] + rw_srcs,
-                    extra=json.dumps([pkg, mode, solo, frag.get("rewrite", {}), frag.get("extra_pkgs", [])], sort_keys=True))[:20]
+    fake_srcs = []
+    for fk in frag.get("fakes", []):
+        fake_srcs += sorted(glob.glob(os.path.join(VERIF, "fakes", fk, "*.go")))
+    key = sha_files(repo_go_files() + hfiles + [p for _, p in kfiles] + rw_srcs + fake_srcs,
+                    extra=json.dumps([pkg, mode, solo, frag.get("rewrite", {}), frag.get("extra_pkgs", []), frag.get("fakes", [])], sort_keys=True))[:20]
     tag = frag["harness"] + ("-solo-" + frag["property_id"] if solo else "")
     bindir = os.path.join(BUILD, "bin")
     os.makedirs(bindir, exist_ok=True)
@@ -167,6 +170,34 @@ def build(frag, solo=False, quiet=False):
         out = os.path.join(BUILD, "seam", key, pkg or "_root")
         for a, b in run_rewriter("seam", pkgdir, out, frag).items():
             overlay[a] = b
+    # 5. environment fakes: replace whole module-cache packages (shim builds of the data-channel harnesses)
+    modcache = subprocess.run(["go", "env", "GOMODCACHE"], cwd=REPO, env=goenv(), capture_output=True, text=True).stdout.strip()
+    for fk in frag.get("fakes", []):
+        cand = sorted(glob.glob(os.path.join(modcache, "github.com", "pion", fk + "@*")))
+        want = None
+        for line in open(os.path.join(REPO, "go.mod")):
+            parts = line.split()
+            if len(parts) >= 2 and parts[0] == "github.com/pion/" + fk:
+                want = os.path.join(modcache, "github.com", "pion", fk + "@" + parts[1])
+        moddir = want if want and os.path.isdir(want) else (cand[-1] if cand else None)
+        if not moddir:
+            print("VERIF-ERROR fake %s: module directory not found" % fk)
+            sys.exit(2)
+        # every original file becomes an empty file of the package (deleting files of a dependency
+        # through the overlay is not supported by the go command), test files are not compiled anyway
+        stubdir = os.path.join(BUILD, "stubs")
+        os.makedirs(stubdir, exist_ok=True)
+        stub = os.path.join(stubdir, fk + "_empty.go")
+        with open(stub, "w") as f:
+            f.write("package %s\n" % fk)
+        originals = sorted(fn for fn in os.listdir(moddir) if fn.endswith(".go") and not fn.endswith("_test.go"))
+        fakefiles = sorted(fn for fn in os.listdir(os.path.join(VERIF, "fakes", fk)) if fn.endswith(".go"))
+        if len(fakefiles) > len(originals):
+            print("VERIF-ERROR fake %s has more files than the package it replaces" % fk)
+            sys.exit(2)
+        # (new files added to a dependency's directory are not seen either: reuse the original file names)
+        for i, fn in enumerate(originals):
+            overlay[os.path.join(moddir, fn)] = os.path.join(VERIF, "fakes", fk, fakefiles[i]) if i < len(fakefiles) else stub
     ovdir = os.path.join(BUILD, "overlay")
     os.makedirs(ovdir, exist_ok=True)
     ovpath = os.path.join(ovdir, "%s-%s-%s.json" % (tag, mode, key))
@@ -282,7 +313,7 @@ def main(argv):
         seen = set()
         rc = 0
         for fr in all_fragments():
-            k = (fr["harness"], fr.get("mode", "plain"), json.dumps(fr.get("rewrite", {}), sort_keys=True), bool(fr.get("race")))
+            k = (fr["harness"], fr.get("mode", "plain"), json.dumps(fr.get("rewrite", {}), sort_keys=True), bool(fr.get("race")), json.dumps(fr.get("fakes", [])))
             if k in seen:
                 continue
             seen.add(k)
